@@ -552,6 +552,16 @@ func c20Text(c *fw.Ctx, fam string, idx int, text string, viaCLI bool) {
 			c.Count("two_file_runs", 1)
 		}
 	}
+	// the same text piped through standard input (no file argument): the same document
+	if idx%8 == 0 && strings.TrimSpace(text) != "" {
+		in := text
+		rf := clidrv.Exec(home, clidrv.Opts{Now: fixedNow}, &cli.Json{InputFilesArgs: fileArgs(path)})
+		rs0 := clidrv.Exec(clidrv.Home("home-nobookmarks"), clidrv.Opts{Now: fixedNow, OSStdin: &in}, &cli.Json{})
+		if rs0.Panicked || rs0.Code != rf.Code || rs0.Stdout != rf.Stdout {
+			c.Violation("json-stdin-differs", cs(), fmt.Sprintf("`klog json` with the text on standard input (exit %d, panic %v, %s) prints\n%s\nbut `klog json FILE` prints\n%s", rs0.Code, rs0.PanicVal, rs0.Err, truncateStr(rs0.Stdout, 800), truncateStr(rf.Stdout, 800)))
+			return
+		}
+	}
 	for _, v := range vs {
 		r := clidrv.Exec(home, clidrv.Opts{Now: fixedNow}, v.cmd)
 		if r.Panicked || r.Code != 0 {
